@@ -15,11 +15,11 @@ import (
 func init() {
 	Register(&Rule{
 		ID: "C26", Section: "5 C26",
-		Technique: "table agreement (HopHeaders / reqWriteExcludeHeader against the RFC 7230 list), dominance of hopByHopHeaderRemove over clusterInvoke/RoundTrip on the same request object, back-edge guard census of the removal loop, who-may-write census of Request.OutRequest, backward value flow from Header.Del to the Connection header value",
+		Technique: "table agreement (HopHeaders / reqWriteExcludeHeader against the RFC 7230 list), dominance of hopByHopHeaderRemove over clusterInvoke/RoundTrip on the same request object, back-edge guard census of the removal loop, who-may-write census of Request.OutRequest, backward value flow from Header.Del to the Connection header value, use census of the package-level tables (read-only after initialisation: no store, element write, append over the shared backing array, escape), who-may-overwrite census of bfe_http.Request objects (whole-struct stores and Header replacements only on objects the function allocated itself, or with a fresh map)",
 		Meta: core.Meta{
 			Level:       "other",
-			Explanation: "Decides: (a) each of Connection, Keep-Alive, Proxy-Authenticate, Proxy-Authorization, Te, Trailer, Transfer-Encoding, Upgrade is, in canonical MIME form, an element of bfe_basic.HopHeaders or a true key of bfe_http.reqWriteExcludeHeader; Request.write emits req.Header only through WriteSubset with that exclude map and Header.sortedKeyValues appends an entry only under !exclude[key]; (b) in ReverseProxy.ServeHTTP a call hopByHopHeaderRemove(outreq, …) dominates every clusterInvoke call, outreq is the object stored in basicReq.OutRequest, the struct copy *outreq = *req happens before the removal, Request.OutRequest has no other writer in the program, clusterInvoke has no other caller, and every RoundTripper.RoundTrip call of bfe_server sends request.OutRequest; (c) inside hopByHopHeaderRemove the loop ranges over bfe_basic.HopHeaders, Header.Del is applied to outreq.Header with the loop element, and an iteration can skip the Del only when outreq.Header.Get(element) == \"\" or when element == \"Te\" and the value == \"trailers\" (exactly); every path through hopByHopHeaderRemove enters that loop (an early return is accepted only under `outgoing header empty`) and the loop is left only at its header, i.e. after the whole table; (d) some Header.Del on the outgoing header takes a key that flows from the Connection header's value through a comma split (Connection-listed fields). Not covered: headers re-added by modules between the removal and RoundTrip, non-canonical keys inserted into the map directly, the outgoing Trailer/Transfer-Encoding lines that Request.write generates itself for the request body, upgrade (websocket) requests, backends spoken to through the HTTP/2 or FastCGI transports (they do not use reqWriteExcludeHeader).",
-			RuleText:    "obligations = one per required header name, one per clusterInvoke/RoundTrip call site, one per writer of Request.OutRequest, one per back edge of the removal loop that bypasses Del, the loop-bypass and early-exit queries per removal loop, the Del target/key, the exclude-map use in Request.write, the Connection-token flow",
+			Explanation: "Decides: (a) each of Connection, Keep-Alive, Proxy-Authenticate, Proxy-Authorization, Te, Trailer, Transfer-Encoding, Upgrade is, in canonical MIME form, an element of bfe_basic.HopHeaders or a true key of bfe_http.reqWriteExcludeHeader; Request.write emits req.Header only through WriteSubset with that exclude map and Header.sortedKeyValues appends an entry only under !exclude[key]; (b) in ReverseProxy.ServeHTTP a call hopByHopHeaderRemove(outreq, …) dominates every clusterInvoke call, outreq is the object stored in basicReq.OutRequest, the struct copy *outreq = *req happens before the removal, Request.OutRequest has no other writer in the program, clusterInvoke has no other caller, and every RoundTripper.RoundTrip call of bfe_server sends request.OutRequest; (c) inside hopByHopHeaderRemove the loop ranges over bfe_basic.HopHeaders, Header.Del is applied to outreq.Header with the loop element, and an iteration can skip the Del only when outreq.Header.Get(element) == \"\" or when element == \"Te\" and the value == \"trailers\" (exactly); every path through hopByHopHeaderRemove enters that loop (an early return is accepted only under `outgoing header empty`) and the loop is left only at its header, i.e. after the whole table; (d) some Header.Del on the outgoing header takes a key that flows from the Connection header's value through a comma split (Connection-listed fields); (e) the tables of (a) still hold their literal contents when a request is forwarded: every function of the program that touches bfe_basic.HopHeaders or bfe_http.reqWriteExcludeHeader only reads it (range/index/lookup/len, passing it to module callees that only read it) - no reassignment, element or entry write, delete, copy into, append onto the table or a sub-slice of it (the in-place filter idiom t[:0]+append rewrites the shared backing array), no store/return/capture that would let an alias escape; (f) the cleaned outgoing request is not refilled: anywhere in the program, a whole-struct store `*r = *other` of a bfe_http.Request and a store to Request.Header are accepted only when the target object was allocated by the same function (new/composite literal, also through a local variable) or - for Header - when the stored map is fresh (make, or a module function returning only fresh maps); a pre-existing object (parameter, field load such as request.OutRequest in clusterInvoke's retry loop) may be the cleaned outgoing request and the copy would re-alias the client's header map. Not covered: headers re-added by modules between the removal and RoundTrip, non-canonical keys inserted into the map directly, the outgoing Trailer/Transfer-Encoding lines that Request.write generates itself for the request body, upgrade (websocket) requests, backends spoken to through the HTTP/2 or FastCGI transports (they do not use reqWriteExcludeHeader).",
+			RuleText:    "obligations = one per required header name, one per clusterInvoke/RoundTrip call site, one per writer of Request.OutRequest, one per back edge of the removal loop that bypasses Del, the loop-bypass and early-exit queries per removal loop, the Del target/key, the exclude-map use in Request.write, the Connection-token flow, one per function using a hop-by-hop table (read-only), one per whole-struct store of a bfe_http.Request and per store to Request.Header in the program (fresh target or fresh map)",
 			Assumptions: []string{"bfe_http.Header.Get/Del canonicalise their key (textproto.MIMEHeader), so table entries are compared in canonical form", "header maps hold canonical keys (true for headers parsed by bfe_http.ReadRequest)"},
 		},
 		Run: runC26,
@@ -39,6 +39,13 @@ func init() {
 			{Name: "exclude-not-honoured", File: "bfe_http/header.go", Old: "		if !exclude[k] {\n			kvs = append(kvs, keyValues{k, vv})\n		}\n	}\n	hs.kvs = kvs", New: "		if !exclude[k] || len(vv) > 1 {\n			kvs = append(kvs, keyValues{k, vv})\n		}\n	}\n	hs.kvs = kvs", Expect: "exclude-honoured"},
 			{Name: "removal-skipped-for-closing-requests", File: "bfe_server/reverseproxy.go", Old: "	copiedHeaders := false\n	for _, h := range bfe_basic.HopHeaders {", New: "	copiedHeaders := false\n	if req.Close {\n		return\n	}\n	for _, h := range bfe_basic.HopHeaders {", Expect: "hop-always|"},
 			{Name: "removal-stops-at-first-hit", File: "bfe_server/reverseproxy.go", Old: "		outreq.Header.Del(h)\n	}\n}", New: "		outreq.Header.Del(h)\n		if h == \"Connection\" {\n			break\n		}\n	}\n}", Expect: "hop-always|"},
+			{Name: "retry-realiases-client-header", File: "bfe_server/reverseproxy.go", Old: "		setBackendAddr(outreq, backend)\n", New: "		outreq.Header = request.HttpRequest.Header\n		setBackendAddr(outreq, backend)\n", Expect: "request-not-refilled|"},
+			{Name: "cross-retry-refills-outreq", File: "bfe_server/reverseproxy.go", Old: "		if err == bfe_basic.ErrBkCrossRetryBalance {\n			request.RetryTime += 1\n", New: "		if err == bfe_basic.ErrBkCrossRetryBalance {\n			request.RetryTime += 1\n			*request.OutRequest = *request.HttpRequest\n", Expect: "request-not-refilled|"},
+			{Name: "exclude-map-rewritten-at-runtime", File: "bfe_http/request.go", Old: "	err = req.Header.WriteSubset(w, reqWriteExcludeHeader)", New: "	if len(req.Trailer) > 0 {\n		reqWriteExcludeHeader[\"Trailer\"] = false\n	}\n	err = req.Header.WriteSubset(w, reqWriteExcludeHeader)", Expect: "table-immutable|"},
+			{Name: "hop-table-compacted-in-place", File: "bfe_server/reverseproxy.go", Old: "	copiedHeaders := false\n	for _, h := range bfe_basic.HopHeaders {", New: "	copiedHeaders := false\n	if outreq.Header.Get(\"Upgrade\") != \"\" {\n		bfe_basic.HopHeaders = append(bfe_basic.HopHeaders[:1], bfe_basic.HopHeaders[2:]...)\n	}\n	for _, h := range bfe_basic.HopHeaders {", Expect: "table-immutable|"},
+			{Name: "auth-request-filters-table-in-place", File: "bfe_modules/mod_auth_request/mod_auth_request.go", Old: "	for _, h := range bfe_basic.HopHeaders {\n		headers.Del(h)\n	}", New: "	keep := bfe_basic.HopHeaders[:0]\n	for _, h := range bfe_basic.HopHeaders {\n		if h != \"Upgrade\" {\n			keep = append(keep, h)\n		}\n	}\n	for _, h := range keep {\n		headers.Del(h)\n	}", Expect: "table-immutable|"},
+			{Name: "silent-detach-through-local", Silent: true, File: "bfe_server/reverseproxy.go", Old: "			outreq.Header = make(bfe_http.Header, len(req.Header))\n			bfe_http.CopyHeader(outreq.Header, req.Header)", New: "			detached := make(bfe_http.Header, len(req.Header))\n			bfe_http.CopyHeader(detached, req.Header)\n			outreq.Header = detached"},
+			{Name: "silent-table-through-local", Silent: true, File: "bfe_server/reverseproxy.go", Old: "	for _, h := range bfe_basic.HopHeaders {\n		hv := outreq.Header.Get(h)", New: "	hops := bfe_basic.HopHeaders\n	log.Logger.Debug(\"hop table has %d names\", len(hops))\n	for _, h := range hops {\n		hv := outreq.Header.Get(h)"},
 			{Name: "silent-empty-header-shortcut", Silent: true, File: "bfe_server/reverseproxy.go", Old: "	copiedHeaders := false\n	for _, h := range bfe_basic.HopHeaders {", New: "	copiedHeaders := false\n	if len(outreq.Header) == 0 {\n		return\n	}\n	for _, h := range bfe_basic.HopHeaders {"},
 			{Name: "silent-rename-and-log", Silent: true, File: "bfe_server/reverseproxy.go", Old: "		hv := outreq.Header.Get(h)\n		if hv == \"\" {\n			continue\n		}\n\n		if h == \"Te\" && hv == \"trailers\" {", New: "		val := outreq.Header.Get(h)\n		if len(val) == 0 {\n			continue\n		}\n		log.Logger.Debug(\"hop header %s\", h)\n		hv := val\n		if hv == \"trailers\" && h == \"Te\" {"},
 		},
@@ -130,6 +137,11 @@ func runC26(c *core.Ctx) {
 		}
 		c.Min("exclude-honoured", 1)
 	}
+
+	// the tables keep their literal contents at run time; an existing request is
+	// never refilled from another one
+	c26TablesImmutable(c)
+	c26RequestNotRefilled(c, reqHeader)
 
 	// (b) ServeHTTP: removal dominates clusterInvoke on the same object
 	serve := h1bFunc(c, srv, "ReverseProxy.ServeHTTP")
